@@ -38,6 +38,11 @@ CLAIMED.update({
              note='ConnSem valid-matrix semantics; constraint-violation imputers excluded (returning an invalid design is their purpose); InvalidPatternEncoder is the accepted refusal; an encoder exceeding a 20 s budget is skipped and counted; failures of an (encoder family, imputer, clause) class listed in known_findings.json are attributed to it',
              text='Every factory of the encoder registry is instantiated with the default and alternative imputers on generated settings; per existence pattern with at least one valid matrix every declared vector (sampled above a cap), out-of-range and over-long vectors are decoded, each corrected vector is decoded again, and get_all_design_vectors is recorded. TLC checks: no exception, matrix in ValidMatrices, corrected vector in range and canonical, idempotence, one matrix per corrected vector, onto-ness when the space was decoded completely, listed = produced vectors, at least two used values per variable.'),
 })
+CLAIMED.update({
+ 'C11': dict(cat='model_checking', tech='TLA+ connection semantics in DSGSem (ValidConnSets per existence scenario, grouping sums, SemCap) + TLC trace monitors on graph-level (Mon_Graph Conn events) and processor-level (Mon_Proc) traces', ref='3 C11',
+             note='DSGSem connection semantics is my reading of docs/theory.md; graph level uses the logged per-pair limits (sanity-checked), processor level the documented limit rule (SemCap); build/project trusted; known findings attributed by clause + structural trigger',
+             text='Graph level: for every selection-final instance of every generated description with a connection choice (1-3 sources/targets, permanent or conditional, grouping connectors, exclusion edges; theory-page example) the offered connection sets, validate_conn_edges on the whole box of edge multisets and the application of every offered set are recorded; TLC checks offered = ValidConnSets for the connectors present (missing/extra/duplicate), validate <=> membership, applied edges = chosen set on the right node set, feasible result. Processor level: decoded connection edges are a valid set for the decoded scenario, every scenario with a valid set is reached when the declared space is decoded completely, scenarios without one are never decoded to, and n_valid equals the reference count computed by TLC.'),
+})
 NA = {}
 
 def check_entry(pid):
